@@ -780,8 +780,11 @@ keyword(vbi_link *ld, uint8_t *p, int column,
 	*back = 0;
 
 	if (isdigit(*s)) {
+		/* Longer numbers are not page numbers (i > 3 below),
+		   do not let them overflow pgno. */
 		for (i = 0; isdigit(s[i]); i++)
-			ld->pgno = ld->pgno * 16 + (s[i] & 15);
+			if (i < 4)
+				ld->pgno = ld->pgno * 16 + (s[i] & 15);
 
 		if (isdigit(s[-1]) || i > 3)
 			return i;
@@ -799,7 +802,8 @@ keyword(vbi_link *ld, uint8_t *p, int column,
 		s += i += 1;
 
 		for (ld->subno = j = 0; isdigit(s[j]); j++)
-			ld->subno = ld->subno * 16 + (s[j] & 15);
+			if (j < 4)
+				ld->subno = ld->subno * 16 + (s[j] & 15);
 
 		if (j > 1 || subno != ld->pgno || ld->subno > 0x99)
 			return i + j;
